@@ -8,3 +8,28 @@ pub fn username_from_stun_bytes(bytes: &[u8]) -> Option<String> {
 pub fn peer_ufrag_from_binding_request(bytes: &[u8]) -> Option<String> {
     crate::transports::ice::shared_tcp::peer_ufrag_from_binding_request(bytes)
 }
+
+/// C07: handshake-context snapshots published by the DTLS run loop after every datagram it handled
+/// (`recv_message_seq, message_seq, incomplete_handshake.len(), incomplete_msg_seq, handshake_messages.len(),
+/// post_hvr, handler-error flag`), keyed by `DtlsTransport::verif_instance_id()`. The context is a local of the
+/// run loop and otherwise unobservable. `seq` counts publications so the harness can wait for the next one.
+static HS_CTX: parking_lot::Mutex<Vec<(usize, u64, [u64; 7])>> = parking_lot::Mutex::new(Vec::new());
+
+pub fn publish_hs_ctx(instance: usize, v: [u64; 7]) {
+    let mut g = HS_CTX.lock();
+    if let Some(e) = g.iter_mut().find(|e| e.0 == instance) {
+        e.1 += 1;
+        e.2 = v;
+    } else {
+        g.push((instance, 1, v));
+    }
+}
+
+/// (number of publications so far, last snapshot)
+pub fn hs_ctx(instance: usize) -> Option<(u64, [u64; 7])> {
+    HS_CTX.lock().iter().find(|e| e.0 == instance).map(|e| (e.1, e.2))
+}
+
+pub fn hs_ctx_clear(instance: usize) {
+    HS_CTX.lock().retain(|e| e.0 != instance);
+}
